@@ -1,4 +1,5 @@
 CONSTANT Tier = "thorough"
+CONSTANT Fams = {"ax", "val", "bud", "upg", "der"}
 SPECIFICATION Spec
 INVARIANT Laws
 INVARIANT Emit
